@@ -2,12 +2,13 @@
 
 TLC: the painter of CSS 2.1 Appendix E as a stack machine (ExpandCtx / ExpandInline / Emit1, the recursive
 drawStackingContext unrolled) over every tree of boxes (kind block / inline / inline-block / float x position x z-index,
-plus opacity, overflow and absolute positioning in the Rich families); invariants Agree (the machine emits the declarative
+plus opacity, reflecting transforms, overflow and absolute positioning in the Rich families); invariants Agree (the machine emits the declarative
 order Order(FALSE, 0)), Once, BgFirst, Layering, Atomic; liveness Terminates. Every terminal state carries the tree, the
 paint order, and the order under the implementation's named deviation (overflow != visible creates a stacking context).
 Binding: every tree is rendered with one background colour and one word per box on the recording backend; the order of the
 first fill of each colour and of each word must be the specification's sequence of bg(i) / text(i) events; and while a box is
-painted, the padding box of every ancestor with overflow: hidden (operator ClipAnc) must be among the clips in force.
+painted, the padding box of every ancestor with overflow: hidden (operator ClipAnc) must be among the clips in force, and the
+orientation of the transformation in force must be that of the page reversed once per reflecting box among the box and its ancestors.
 Family Wide: 16 sibling stacking contexts with z-index in {1, 2} (ties in tree order whatever the sort).
 """
 import os
@@ -38,6 +39,7 @@ def replay(ctx, res, name):
         raise MachineryError("harness processed %d of %d arrangements (%s)" % (c.get("scenarios", 0), cnt, name))
     os.remove(ver)
     ctx.extra["clip_brackets_checked"] = ctx.extra.get("clip_brackets_checked", 0) + c.get("clip-brackets-checked", 0)
+    ctx.extra["transform_scopes_checked"] = ctx.extra.get("transform_scopes_checked", 0) + c.get("transform-scopes-checked", 0)
     return cnt
 
 
